@@ -515,7 +515,9 @@ class MolGrid(Grid):
         natoms = len(atcoords)
         # List of int is created, so that indexing is possible in the for-loop.
         if isinstance(d_sectors, (int, np.integer)):
-            d_sectors = [d_sectors] * natoms
+            d_sectors = [[d_sectors] * (len(r_sectors[i]) + 1) for i in range(natoms)]
+        if isinstance(s_sectors, (int, np.integer)):
+            s_sectors = [[s_sectors] * (len(r_sectors[i]) + 1) for i in range(natoms)]
         # If s_sectors given d_sectors is set to [None] for all atoms.
         if s_sectors is not None:
             d_sectors = [None] * natoms
@@ -534,7 +536,7 @@ class MolGrid(Grid):
                 f"Got {len(s_sectors)} angular sectors and {len(r_sectors)} radial sectors."
             )
 
-        radius_atom = [radius] * natoms if isinstance(radius, (float, np.float64)) else radius
+        radius_atom = [radius] * natoms if isinstance(radius, (int, float, np.number)) else radius
         for i, atnum in enumerate(atnums):
             # get proper radial grid
             if isinstance(rgrid, OneDGrid):
